@@ -134,7 +134,11 @@ Section AutoPolingProofs.
   Qed.
 
   (* ------------------------------------------------------------ a mismatch of the collinear form: the seed is an exact root *)
-  Hypothesis Hcol : forall x, opp_min_period <= x <= L ->
+  (* the collinear form is required only at the periods the simplex actually evaluates (at the single period where the
+     closing vector vanishes the code computes 0/0; the hypothesis says that period is not evaluated) *)
+  Hypothesis Hcol : forall x,
+    In x (strace (nm_run Rltb o (pol_cost dkz L) sd (opp_seed0 (opp_guess z)) (opp_seed1 (opp_guess z)) opp_max_iter)) ->
+    opp_min_period <= x <= L ->
     dkz_on dkz x (sign_from z) = z - 2 * PI / (sign_val (sign_from z) * x).
 
   Lemma collinear_exact : z <> 0 -> opp_min_period <= Rabs (2 * PI / z) <= L ->
@@ -142,9 +146,12 @@ Section AutoPolingProofs.
   Proof.
     intros Hz Hr. set (r := Rabs (2 * PI / z)) in *.
     pose proof min_period_pos as Hm. pose proof PI_RGT_0 as HPI. pose proof (sign_val_nz (sign_from z)) as Hs.
-    assert (Hroot : forall x, opp_min_period <= x <= L -> (cost x = CFin 0 <-> x = r) /\ exists k, cost x = CFin k /\ 0 <= k).
-    { intros x Hx. unfold pol_cost. rewrite (proj2 (in_bounds_iff x opp_min_period (opp_max_period L))) by (rewrite max_period_eq; exact Hx).
-      rewrite opp_cost_eq, (Hcol x Hx). split; [|eexists; split; [reflexivity | apply Rabs_pos]].
+    pose proof (nm_result_evaluated Rltb Rltb_irrefl Rltb_trans Rltb_cotrans o cost sd (opp_seed0 (opp_guess z)) (opp_seed1 (opp_guess z)) opp_max_iter) as Hev.
+    cbv zeta in Hev. destruct Hev as (Hev_res & Hev_g0 & _).
+    assert (Hroot : forall x, In x (strace (nm_run Rltb o cost sd (opp_seed0 (opp_guess z)) (opp_seed1 (opp_guess z)) opp_max_iter)) ->
+                    opp_min_period <= x <= L -> (cost x = CFin 0 <-> x = r) /\ exists k, cost x = CFin k /\ 0 <= k).
+    { intros x Hin Hx. unfold pol_cost. rewrite (proj2 (in_bounds_iff x opp_min_period (opp_max_period L))) by (rewrite max_period_eq; exact Hx).
+      rewrite opp_cost_eq, (Hcol x Hin Hx). split; [|eexists; split; [reflexivity | apply Rabs_pos]].
       assert (Hx0 : x <> 0) by lra.
       split.
       - intros H. injection H as H.
@@ -158,7 +165,7 @@ Section AutoPolingProofs.
         rewrite Rabs_right by lra. ring.
       - intros ->. f_equal. unfold r. rewrite signed_seed by exact Hz.
         replace (z - 2 * PI / (2 * PI / z)) with 0 by (field; split; lra). apply Rabs_R0. }
-    assert (Hseed : cost (opp_seed0 (opp_guess z)) = CFin 0) by (apply (proj1 (Hroot r Hr)); reflexivity).
+    assert (Hseed : cost (opp_seed0 (opp_guess z)) = CFin 0) by (apply (proj1 (Hroot r Hev_g0 Hr)); reflexivity).
     (* monotonicity: the returned cost is <= 0; bounds: the returned point is admissible *)
     pose proof (nm_monotone Rltb Rltb_irrefl Rltb_trans Rltb_cotrans o cost sd (opp_seed0 (opp_guess z)) (opp_seed1 (opp_guess z)) opp_max_iter) as Hmono.
     cbv zeta in Hmono. destruct Hmono as (Htrue & Hle & _).
@@ -168,7 +175,7 @@ Section AutoPolingProofs.
     destruct Hbd as [Hin _]; [left; rewrite Hseed; reflexivity|].
     fold period in Hin. apply negb_true_iff, in_bounds_iff in Hin. rewrite max_period_eq in Hin.
     fold (nm_period_cost dkz o sd L) in Htrue, Hle. change (vp (sbest _)) with period in Htrue.
-    destruct (Hroot period Hin) as [Hiff (k & Hk & Hk0)].
+    destruct (Hroot period Hev_res Hin) as [Hiff (k & Hk & Hk0)].
     rewrite Htrue, Hk, Hseed in Hle. unfold ele in Hle. apply negb_true_iff in Hle. cbn [elt] in Hle.
     assert (k = 0) by (destruct (Rlt_dec 0 k) as [H|H]; [apply Rltb_iff in H; congruence | lra]). subst k.
     assert (Hp : period = r) by (apply Hiff; exact Hk).
@@ -179,7 +186,7 @@ Section AutoPolingProofs.
       rewrite opp_value_eq, Hp. unfold r. rewrite signed_seed by exact Hz. reflexivity. }
     split; [exact Hok|].
     destruct (sign_and_bound _ Hok) as (_ & _ & _ & _ & _ & _ & Hpo). rewrite Hpo, Hp.
-    change (dkz (PPOn r (sign_from z))) with (dkz_on dkz r (sign_from z)). rewrite (Hcol r Hr).
+    change (dkz (PPOn r (sign_from z))) with (dkz_on dkz r (sign_from z)). rewrite (Hcol r Hev_g0 Hr).
     unfold r. rewrite signed_seed by exact Hz. field. split; lra.
   Qed.
 End AutoPolingProofs.
